@@ -38,6 +38,9 @@ func init() {
 			Old:    "\tfor i := range rows.Rows {\n\t\tvalues, err := getValuesFromRow(tc, rows, i)\n\t\tif err != nil {\n\t\t\treturn ev, err\n\t\t}\n\t\tev.RowValues = append(ev.RowValues, values)\n\t}\n\treturn ev, nil\n}\n\nfunc appendDeleteEventFromRows",
 			New:    "\tvar values *RowData\n\tfor i := range rows.Rows {\n\t\tif values == nil {\n\t\t\tv, err := getValuesFromRow(tc, rows, i)\n\t\t\tif err != nil {\n\t\t\t\treturn ev, err\n\t\t\t}\n\t\t\tvalues = v\n\t\t}\n\t\tev.RowValues = append(ev.RowValues, values)\n\t}\n\treturn ev, nil\n}\n\nfunc appendDeleteEventFromRows",
 			Expect: "C08-R3 fresh-per-iteration@appendInsertEventFromRows"},
+		Variant{ID: "c08-r4-after-image-shares-before-image", Prop: "C08", File: "streamer.go",
+			Old: "\t\tev.RowValues = append(ev.RowValues, values)\n\t}\n\n\treturn ev, nil\n}\n\nfunc appendInsertEventFromRows", New: "\t\tfor c, col := range values.Columns {\n\t\t\tif c < len(identifies.Columns) && string(col.Data) == string(identifies.Columns[c].Data) {\n\t\t\t\tcol.Data = identifies.Columns[c].Data\n\t\t\t}\n\t\t}\n\t\tev.RowValues = append(ev.RowValues, values)\n\t}\n\n\treturn ev, nil\n}\n\nfunc appendInsertEventFromRows",
+			Expect: "C08-R4 shared@"},
 	)
 }
 
@@ -48,6 +51,125 @@ func runC08(a *A) {
 	}
 	c08R2(a)
 	c08R3(a, r)
+	c08R4(a)
+}
+
+var deliveredTypes = []string{"Transaction", "StreamEvent", "RowData", "ColumnData"}
+
+func isDeliveredPtr(t types.Type) bool {
+	for _, n := range deliveredTypes {
+		if typeIs(t, rootPath, n) {
+			return true
+		}
+	}
+	return false
+}
+
+// deliveredSource: v is (a window of) memory read out of a delivered object: a load through a field of one of the
+// delivered types, followed through element addresses, re-slices, phis and append's first operand. Returns the field
+// address it was read through.
+func deliveredSource(v ssa.Value, depth int) *ssa.FieldAddr {
+	if depth > 12 || v == nil {
+		return nil
+	}
+	switch x := v.(type) {
+	case *ssa.UnOp:
+		if x.Op != token.MUL {
+			return nil
+		}
+		return deliveredAddr(x.X, depth+1)
+	case *ssa.Slice:
+		if fa := deliveredAddr(x.X, depth+1); fa != nil {
+			return fa
+		}
+		return deliveredSource(x.X, depth+1)
+	case *ssa.Phi:
+		for _, e := range x.Edges {
+			if fa := deliveredSource(e, depth+1); fa != nil {
+				return fa
+			}
+		}
+	case *ssa.ChangeType:
+		return deliveredSource(x.X, depth+1)
+	case *ssa.Convert:
+		if _, isSl := x.Type().Underlying().(*types.Slice); isSl {
+			if _, fromSl := x.X.Type().Underlying().(*types.Slice); fromSl {
+				return deliveredSource(x.X, depth+1)
+			}
+		}
+	case *ssa.Call:
+		if isBuiltin(x.Common(), "append") && len(x.Common().Args) >= 1 {
+			return deliveredSource(x.Common().Args[0], depth+1)
+		}
+	}
+	return nil
+}
+
+func deliveredAddr(addr ssa.Value, depth int) *ssa.FieldAddr {
+	if depth > 12 {
+		return nil
+	}
+	switch x := addr.(type) {
+	case *ssa.FieldAddr:
+		if isDeliveredPtr(x.X.Type()) {
+			return x
+		}
+		return deliveredAddr(x.X, depth+1)
+	case *ssa.IndexAddr:
+		if fa := deliveredAddr(x.X, depth+1); fa != nil {
+			return fa
+		}
+		return deliveredSource(x.X, depth+1)
+	}
+	return nil
+}
+
+// R4: no sharing between delivered objects. What is stored into a slice- or pointer-typed field (or into an element of
+// a slice field) of a delivered object is never memory read out of a delivered object - except the object's own field
+// being extended (x.F = append(x.F, ...)).
+func c08R4(a *A) {
+	const rule = "C08-R4"
+	w := a.W
+	n, bad := 0, 0
+	{
+		for _, f := range w.srcFuncs(w.Root) {
+			if f.Blocks == nil {
+				continue
+			}
+			instrs(f, func(in ssa.Instruction) {
+				st, ok := in.(*ssa.Store)
+				if !ok {
+					return
+				}
+				switch st.Val.Type().Underlying().(type) {
+				case *types.Slice, *types.Pointer, *types.Map:
+				default:
+					return
+				}
+				dst := deliveredAddr(st.Addr, 0)
+				if dst == nil {
+					return
+				}
+				n++
+				src := deliveredSource(st.Val, 0)
+				if src == nil {
+					return
+				}
+				if da, ok := st.Addr.(*ssa.FieldAddr); ok && da.X == src.X && da.Field == src.Field {
+					return // own field extended or re-sliced in place
+				}
+				bad++
+				a.viol(rule, fmt.Sprintf("shared@%s#%d", f.Name(), bad), w.posOf(st), "%s of a delivered %s is set to memory read out of %s of a delivered %s: two delivered values share storage, so overwriting one changes the other",
+					fieldName(dst), shortType(dst.X.Type()), fieldName(src), shortType(src.X.Type()))
+			})
+		}
+	}
+	if bad == 0 {
+		a.hold(rule, "shared@all", "-", "%d stores into reference-typed fields/elements of delivered objects, none of memory read out of a delivered object", n)
+	}
+	if n < 5 {
+		a.undecided(rule, "count@stores", "-", "found %d stores into delivered objects, expected at least 5", n)
+	}
 }
 
 func c08R1(a *A, r *Roles) {
@@ -369,4 +491,14 @@ func freshSlice(v ssa.Value, depth int) bool {
 		return true
 	}
 	return false
+}
+
+func shortType(t types.Type) string {
+	if p, ok := t.(*types.Pointer); ok {
+		t = p.Elem()
+	}
+	if n, ok := t.(*types.Named); ok {
+		return n.Obj().Name()
+	}
+	return t.String()
 }
